@@ -19,6 +19,8 @@ from fractions import Fraction
 
 import z3
 
+sys.setrecursionlimit(100000)   # ite summaries nest one level per path (hundreds deep)
+
 try:
     import numpy as _np
 except Exception:  # pragma: no cover
@@ -731,10 +733,15 @@ class Ctx(object):
         if r == z3.sat:
             # prefer an interior model (survives rounding to doubles)
             rm = self._robust_model(t)
+            first = self.assignment(rm if rm is not None else m)
             eng.candidates.append({
-                'check': name, 'config': eng.config_name, 'note': note,
-                'assignment': self.assignment(rm if rm is not None else m),
+                'check': name, 'config': eng.config_name, 'note': note, 'assignment': first,
                 'robust': rm is not None, 'trace_len': len(self.trace)})
+            if rm is not None:
+                second = self.assignment(m)
+                if second != first:     # a second, different witness raises the chance of a reproducing replay
+                    eng.candidates.append({'check': name, 'config': eng.config_name, 'note': note, 'assignment': second,
+                                           'robust': False, 'trace_len': len(self.trace), 'alternative': True})
             return False
         eng.inconclusive.append({'check': name, 'config': eng.config_name, 'why': 'solver unknown'})
         return False
